@@ -1182,11 +1182,21 @@ def req_bytes(route, headers, body):
     return b"anemo\x00\x01\x00" + struct.pack(">I", len(h)) + h + struct.pack(">I", len(body)) + body
 
 
+def resp_bytes(status, headers, body):
+    """Wire bytes of a response (layout of C07)."""
+    import struct
+    h = struct.pack("<H", status) + struct.pack("<Q", len(headers))
+    for k, v in headers:
+        h += struct.pack("<Q", len(k)) + k + struct.pack("<Q", len(v)) + v
+    return b"anemo\x00\x01\x00" + struct.pack(">I", len(h)) + h + struct.pack(">I", len(body)) + body
+
+
 def c06(chk):
     quick = chk.tier == "quick"
     scen = []
     n = 16 if quick else 200
     valid = req_bytes(b"/echo", [(b"id", b"adv")], b"hello")
+    answers = []
     for i in range(n):
         rng = chk.rng
         cmds = ["seed=%d delay=%d" % (rng.randrange(1 << 30), rng.choice([500, 5000])),
@@ -1194,6 +1204,7 @@ def c06(chk):
                 "adv 8 k=7 names=n10", "advdial 8 1 sni=n10", "connect 2 1", "sleep 300",
                 "bg slow rpc 2 1 id=slow size=1000 sleep-ms=2000"]
         ops = []
+        hostile_answers = {}
         if i == 0:
             # systematic part: well-formed requests whose `timeout` (and one arbitrary) header holds a multi-byte
             # character straddling each of the byte offsets a careless truncation would pick
@@ -1202,6 +1213,16 @@ def c06(chk):
                     for back in range(1, len(ch.encode())):
                         v = ("1" * (off - back) + ch * 3).encode()
                         ops.append("advop 8 1 bi:%s:finish" % req_bytes(b"/echo", [(b"id", b"adv"), (b"timeout", v), (b"x-note", v)], b"hello").hex())
+        if i == 1:
+            # the same sweep for answers: well-formed responses whose header values hold a multi-byte character straddling each offset
+            n = 0
+            for off in (4, 8, 16, 24, 32, 48, 64, 100, 128, 255, 256, 512, 1024):
+                for ch in ("\u00e9", "\u20ac", "\U0001F600"):
+                    for back in range(1, len(ch.encode())):
+                        v = ("1" * (off - back) + ch * 3).encode()
+                        ops.append("advserve 8 %s:finish" % resp_bytes(200, [(b"status-message", v), (b"content-type", v), (b"x-note", v)], b"answer").hex())
+                        ops.append("rpc 1 8 id=w%d size=0" % n)
+                        n += 1
         for j in range(rng.randrange(4, 30)):
             r = rng.random()
             if r < 0.2:
@@ -1243,11 +1264,35 @@ def c06(chk):
                 ops.append("advop 8 1 bi:%s:finish" % valid.hex())
             if rng.random() < 0.3:
                 ops.append("rpc 2 1 id=h%d size=%d" % (j, rng.choice([0, 100, 5000])))
+            if rng.random() < 0.25:
+                # the victim calls the hostile peer, which answers with scripted bytes: valid with hostile header values,
+                # truncated, mutated, unknown status, absurd lengths, nothing at all; finished, reset or left open
+                good = resp_bytes(200, [(b"status-message", ("m" * rng.randrange(0, 70) + rng.choice(["", "\u00e9\u00e9", "\U0001F600"])).encode()),
+                                        (b"content-type", b"x" * rng.randrange(0, 40))], b"answer")
+                k = rng.random()
+                if k < 0.3:
+                    rb, act = good, "finish"
+                elif k < 0.5:
+                    rb, act = good[:rng.randrange(0, len(good))], rng.choice(["finish", "reset", "hold"])
+                elif k < 0.65:
+                    m = bytearray(good)
+                    m[rng.randrange(len(m))] ^= rng.choice([1, 0x80, 0xff])
+                    rb, act = bytes(m), "finish"
+                elif k < 0.75:
+                    rb, act = resp_bytes(rng.choice([0, 1, 199, 299, 65535]), [], b""), "finish"
+                elif k < 0.85:
+                    rb, act = b"anemo\x00\x01\x00" + rng.choice([b"\xff\xff\xff\xff", b"\x00\x80\x00\x01", b"\x00\x00\x00\x00", b"\x00\x00\x00\x01\x00"]) + rng.randbytes(12), "finish"
+                else:
+                    rb, act = rng.randbytes(rng.choice([0, 3, 8, 30])), rng.choice(["finish", "reset", "hold"])
+                ops.append("advserve 8 %s:%s" % (rb.hex() or "-", act))
+                ops.append("rpc 1 8 id=v%d size=%d%s" % (j, rng.choice([0, 50]), " abandon-us=3000000" if act == "hold" else ""))
+                hostile_answers["v%d" % j] = (rb == good and act == "finish")
         ops.append("advop 8 1 bi:%s:finish" % valid.hex())      # a well-formed request of the hostile peer is still served
         if rng.random() < 0.5:
             ops.append("advop 8 1 close")
         cmds += ops + ["join slow 600000", "rpc 2 1 id=after size=64", "rpc 1 2 id=rev size=64", "closed 1", "peers 1", "stat 1", "trace"]
         scen.append("simnet " + " ; ".join(cmds))
+        answers.append(hostile_answers)
     outs, parsed = run_scenarios(chk, scen, "fabric:hostile")
     # trace acceptance: the victim's manager / handler events replayed on Shutdown.v; it must still be in its loop
     tcases = [mgr_trace_case(res[-1], 1)[0] if res is not None else "mgrtrace" for res in parsed]
@@ -1263,7 +1308,7 @@ def c06(chk):
             ment = sorted("2" if x == "2" else "adv" for x in fields(m)["entries"].strip("[]").split(",") if x)
             if listed != ment:
                 chk.disagree(sc, "peers 1 = %s" % listed, "Shutdown.v entries: " + m, "simnet/mgrtrace-observables")
-    for sc, o, res in zip(scen, outs, parsed):
+    for sc, o, res, hostile_answers in zip(scen, outs, parsed, answers):
         if res is None:
             continue
         chk.nontriv(sc)
@@ -1283,6 +1328,12 @@ def c06(chk):
                     f = fields(x)
                     if f["body"] != f["sent"]:
                         chk.monitor_fail("an honest RPC returned a wrong body while a hostile peer was misbehaving", dict(case=sc))
+            if c.startswith("rpc 1 8 "):
+                chk.count("hostile-answer:" + x.split()[0])
+                if x == "HANG" or "stuck" in x:
+                    chk.monitor_fail("a call answered by the hostile peer never returned: " + x[:100], dict(case=sc))
+                elif x.startswith("ok") and (c.split()[3][3:].startswith("w") or hostile_answers.get(c.split()[3][3:])) and (fields(x)["st"] != "200" or fields(x)["body"] != digest(b"answer")):
+                    chk.monitor_fail("a call answered by the hostile peer returned a body it did not send: " + x[:160], dict(case=sc))
             if c == "closed 1" and not x.startswith("closed=0"):
                 chk.monitor_fail("the network shut down under hostile input: " + x, dict(case=sc))
             if c == "peers 1" and "2" not in x.strip("[]").split(","):
